@@ -439,3 +439,176 @@ def periodic_case(draw, tier='quick'):
     b.labels.add('periodic-setting')
     return {'deck': b.deck, 'labels': sorted(b.labels), 'tier': tier,
             'box': W * 1.15, 'pseed': draw(st.integers(0, 2 ** 31 - 1))}
+
+
+# --------------------------------------------------------------------------
+# hexagonal lattices (LAT=2)
+# --------------------------------------------------------------------------
+
+def _hex_vertices(draw, regular):
+    r = draw(gen.length(0.5, 1.2))
+    th0 = math.radians(draw(st.integers(0, 359)))
+    if regular:
+        ang = [th0 + k * math.pi / 3 for k in range(3)]
+        rad = [r, r, r]
+    else:
+        ang = [th0 + k * math.pi / 3
+               + math.radians(draw(st.integers(-12, 12))) for k in range(3)]
+        rad = [r * draw(st.sampled_from([1.0, 0.85, 1.15, 0.9, 1.1]))
+               for _ in range(3)]
+    vs = [np.array([rr * math.cos(a), rr * math.sin(a)])
+          for a, rr in zip(ang, rad)]
+    ring = vs + [-v for v in vs]
+    # convexity of the ring v0 v1 v2 -v0 -v1 -v2
+    for k in range(6):
+        e1 = ring[(k + 1) % 6] - ring[k]
+        e2 = ring[(k + 2) % 6] - ring[(k + 1) % 6]
+        if e1[0] * e2[1] - e1[1] * e2[0] <= 1e-3 * r * r:
+            return None
+    return vs
+
+
+def hex_lattice_universe(b, u, scale, force=None):
+    """Append a LAT=2 universe to builder ``b``."""
+    d = b.draw
+    force = force or {}
+    b.labels.add('hex-lattice')
+    regular = d(st.booleans())
+    vs = _hex_vertices(d, regular)
+    if vs is None:
+        regular = True
+        vs = _hex_vertices(d, True)
+    b.labels.add('hex:regular' if regular else 'hex:irregular')
+    cls, R = d(gen.rotation(('identity', 'generic', 'axis', 'perm', 'flip')))
+    R = np.array(R).reshape(3, 3)
+    if cls != 'identity':
+        b.labels.add('hex:tilted')
+    e1, e2, e3 = R
+    ring2 = vs + [-v for v in vs]
+    ring = [x * e1 + y * e2 for x, y in ring2]
+    # The hexagon is drawn in the plane of the axial caps (normal e3).  With
+    # eight planes the lattice translations a1, a2 must lie in that plane
+    # (neighbouring elements share the caps) whatever the prism axis is; with
+    # six planes and an oblique axis their component along the axis would be
+    # conventional (DESIGN 4.3), so the axis is then kept orthogonal.
+    three_d = d(st.booleans())
+    oblique = three_d and d(st.integers(0, 2)) == 0
+    w = e3.copy()
+    if oblique:
+        w = e3 + d(st.sampled_from([0.2, -0.3])) * e1 \
+            + d(st.sampled_from([0.0, 0.25])) * e2
+        w = w / np.linalg.norm(w)
+        b.labels.add('hex:oblique-axis')
+    centre = np.array([d(gen.coord(0.3)) for _ in range(3)])
+    trans = [ring[k] + ring[(k + 1) % 6] for k in range(6)]
+    # side planes, outward normals
+    planes = []
+    for k in range(6):
+        n = np.cross(ring[(k + 1) % 6] - ring[k], w)
+        if n @ ring[k] < 0:
+            n = -n
+        n = n / np.linalg.norm(n)
+        dd = float(n @ (centre + ring[k]))
+        flip = d(st.integers(0, 4)) == 0
+        if flip:
+            sid = b.add_surf('p', [float(-t) for t in n] + [-dd])
+            planes.append(md.S(sid))        # cell on the positive side
+        else:
+            sid = b.add_surf('p', [float(t) for t in n] + [dd])
+            planes.append(md.S(-sid))
+    k1 = d(st.integers(0, 5))
+    step = d(st.sampled_from([1, -1, 2, -2]))
+    k2 = (k1 + step) % 6
+    b.labels.add('hex:adjacent' if abs(step) == 1 else 'hex:next-adjacent')
+    rest = [k for k in range(6) if k % 3 not in (k1 % 3, k2 % 3)]
+    if d(st.booleans()):
+        rest = rest[::-1]
+        b.labels.add('hex:last-pair-swapped')
+    order = [k1, (k1 + 3) % 6, k2, (k2 + 3) % 6] + rest
+    leaves = [planes[k] for k in order]
+    a1, a2 = trans[k1], trans[k2]
+    a3 = None
+    if three_d:
+        b.labels.add('hex:3d')
+        m = e3.copy()
+        h = d(gen.length(0.6, 1.5))
+        z0 = d(gen.coord(0.3))
+        d_bot = float(m @ centre) + z0
+        d_top = d_bot + h
+        top = b.add_surf('p', [float(t) for t in m] + [d_top])
+        bot = b.add_surf('p', [float(t) for t in m] + [d_bot])
+        leaves += [md.S(-top), md.S(bot)]
+        a3 = w * (h / float(m @ w))
+    expr = md.AND(*leaves)
+    ndim = 3 if three_d else 2
+    size_scale = float(min(np.linalg.norm(a1), np.linalg.norm(a2))) * 0.45
+    n_sub = d(st.integers(1, 2))
+    subs = [b.universe(-1, size_scale * 2.0, allow_lattice=False)
+            for _ in range(n_sub)]
+    ranges = []
+    for _ in range(ndim):
+        lo = d(st.integers(-2, 1))
+        hi = lo + d(st.integers(0, 2))
+        ranges.append((lo, hi))
+    if ndim == 2 and d(st.booleans()):
+        ranges.append((0, 0))
+        b.labels.add('lat:padded-ranges')
+    size = 1
+    for lo, hi in ranges:
+        size *= hi - lo + 1
+    cid = b.new_cid()
+    mat, rho = b.material()
+    homogeneous = d(st.integers(0, 3)) == 0 or force.get('homogeneous')
+    tr = None
+    if force.get('tr') or d(st.integers(0, 3)) == 0:
+        tr = b.transform_ref(size_scale, allow_none=False)
+        b.labels.add('hex+filltr')
+    if homogeneous:
+        fill = {'u': subs[0], 'ranges': [list(r) for r in ranges],
+                'univs': None, 'tr': tr}
+        b.deck['lattice_opts'].append(
+            '%d,' % cid + ','.join('%d:%d' % r for r in ranges))
+        b.labels.add('lat:homogeneous')
+    else:
+        choices = subs + subs + [0, u]
+        univs = [d(st.sampled_from(choices)) for _ in range(size)]
+        if 0 in univs:
+            b.labels.add('lat:universe-0')
+        if u in univs:
+            b.labels.add('lat:own-universe')
+        fill = {'u': None, 'ranges': [list(r) for r in ranges],
+                'univs': univs, 'tr': tr}
+        b.labels.add('lat:array')
+    c = md.cell(cid, mat, rho, expr, imp={'n': 1}, u=u, fill=fill, lat=2)
+    c['hex'] = {'a1': [float(t) for t in a1], 'a2': [float(t) for t in a2],
+                'a3': None if a3 is None else [float(t) for t in a3],
+                'axis': [float(t) for t in w],
+                'centre': [float(t) for t in centre]}
+    b.deck['cells'].append(c)
+    return c
+
+
+@st.composite
+def hex_case(draw, tier='quick', periodic=False):
+    b = Builder(draw, tier, {'lattice': False})
+    W = 5.0
+    world = b.add_surf('so', [W])
+    ul = b.new_uid()
+    if periodic:
+        hex_lattice_universe(b, ul, 3.0, force={'homogeneous': True,
+                                                'tr': True})
+        b.labels.add('periodic-setting')
+        tr = None
+    else:
+        hex_lattice_universe(b, ul, 3.0)
+        tr = b.transform_ref(3.0) if draw(st.booleans()) else None
+    cont = md.cell(b.new_cid(), 0, None, md.S(-world), imp={'n': 1},
+                   fill={'u': ul, 'tr': tr})
+    if not periodic and draw(st.integers(0, 3)) == 0:
+        cont['trcl'] = b.transform_ref(3.0, allow_none=False)
+        b.labels.add('container-trcl')
+    b.deck['cells'].append(cont)
+    b.deck['cells'].append(md.cell(b.new_cid(), 0, None, md.S(world),
+                                   imp={'n': 0}))
+    return {'deck': b.deck, 'labels': sorted(b.labels), 'tier': tier,
+            'box': W * 1.15, 'pseed': draw(st.integers(0, 2 ** 31 - 1))}
